@@ -94,9 +94,16 @@ func VfC08_Converge() {
 		}
 	}
 	nd.PanicLabel("converge")
-	if nd.Param("preadded", 0) == 1 {
+	if nd.Param("preadded", 0) >= 1 {
 		// start from the state after "dependency s1 added" (every other update is ignored before it)
 		store.VfDependency([]*service.Service{{Name: "s1"}}, nil)
+	}
+	if nd.Param("preadded", 0) == 2 {
+		// ... and s1 has a valid configuration, one endpoint and a running processor
+		store.VfSvcConfig("s1", vfCfg(9000))
+		store.VfSvcEndpoints("s1", []*service.Endpoint{vfEndpoint(0, false)}, nil)
+		hadValid["s1"] = true
+		drain(64)
 	}
 	for s := 0; s < steps; s++ {
 		name := names[nd.Concrete(nd.Choice("svc", nd.Param("services", 2)))]
